@@ -150,6 +150,10 @@ class Run:
             prio = {k: i for i, k in enumerate(sorted(dsk, key=str))}
         heavy = {k for k, t in dsk.items() if _reaches_abtem(t)}
         self.n_tasks, self.n_heavy = len(dsk), len(heavy)
+        # the structure every schedule of this graph is derived from (dry enumeration in explore()); index-based so that it
+        # does not depend on key names
+        idx = {k: i for i, k in enumerate(sorted(dsk, key=lambda k: prio[k]))}
+        self.struct = ([sorted(idx[d] for d in deps[k]) for k in sorted(dsk, key=lambda k: prio[k])], sorted(idx[k] for k in heavy))
         data, done = {}, set()
         point = 0
 
@@ -211,71 +215,139 @@ class _Clusters:
         return len(self.reps) - 1
 
 
+def dry_run(struct, choices):
+    """Mirror of Run.get's scheduling logic WITHOUT executing anything: tasks are indices in priority order.
+    Returns (points, taken) for the schedule that replays `choices` and takes choice 0 afterwards."""
+    deps, heavy = struct
+    heavy = set(heavy)
+    n = len(deps)
+    remaining = [len(d) for d in deps]
+    users = [[] for _ in range(n)]
+    for k, ds in enumerate(deps):
+        for d in ds:
+            users[d].append(k)
+    done = [False] * n
+    ready_light = sorted(k for k in range(n) if not remaining[k] and k not in heavy)
+    ready_heavy = sorted(k for k in range(n) if not remaining[k] and k in heavy)
+    points, taken = [], []
+    ndone = 0
+
+    def finish(k):
+        nonlocal ndone
+        done[k] = True
+        ndone += 1
+        for u in users[k]:
+            remaining[u] -= 1
+            if remaining[u] == 0:
+                (ready_heavy if u in heavy else ready_light).append(u)
+
+    while ndone < n:
+        if ready_light:
+            batch = sorted(ready_light)
+            del ready_light[:]
+            for k in batch:
+                finish(k)
+            continue
+        if not ready_heavy:
+            raise RuntimeError("deadlock: no ready task (cyclic graph?)")
+        ready_heavy.sort()
+        p = len(taken)
+        c = choices[p] if p < len(choices) else 0
+        if c >= len(ready_heavy):
+            raise ScheduleDivergence("dry run: choice %d at point %d but only %d tasks are ready" % (c, p, len(ready_heavy)))
+        points.append(len(ready_heavy))
+        taken.append(c)
+        finish(ready_heavy.pop(c))
+    return points, taken
+
+
+def _children(struct, prefix):
+    """All schedules obtained from `prefix` (+ defaults) by ONE more non-default choice at a point after the prefix."""
+    points, taken = dry_run(struct, prefix)
+    for i in range(len(prefix), len(points)):
+        for alt in range(1, points[i]):
+            yield taken[:i] + [alt]
+
+
+def count_linear_extensions(struct, limit):
+    """Number of complete schedules (linear extensions of the heavy tasks), counted by dry runs; stops at limit + 1."""
+    n = 0
+    stack = [[]]
+    while stack:
+        pre = stack.pop()
+        n += 1
+        if n > limit:
+            return n
+        stack.extend(_children(struct, pre))
+    return n
+
+
 def explore(execute, cap=120, deviations=1, monitor=True, max_runs=None, same=None):
     """
     execute(get) -> result: builds a FRESH lazy object and computes it with scheduler=get.
     same(a, b) -> bool decides whether two results are the same outcome (default ==).
-    Enumerates schedules; returns dict(runs, exhaustive, bound, outcomes(list of representatives), mutations, heavy, ...).
+
+    The schedule space is enumerated on the graph STRUCTURE (dry runs, microseconds each) and then every enumerated schedule
+    is executed for real; a real run whose scheduling points differ from the dry prediction is a ScheduleDivergence.
+    * at most `cap` linear extensions: all of them are executed (exhaustive);
+    * otherwise iterative deviation bounding: all schedules with 0, then exactly 1, then exactly 2 ... non-default choices,
+      level by level up to `deviations`; a level is only started when it fits completely into the remaining `max_runs`
+      budget, so `bound` is always a COMPLETED level and nothing capped is called exhaustive.
+    Returns dict(runs, exhaustive, bound, level_sizes, skipped_level, outcomes, mutations, heavy, tasks).
     """
     clusters = _Clusters(same or (lambda a, b: a == b))
-    _execute = execute
+    results, mutations, info = {}, [], {}
 
-    def execute(get):  # noqa: F811  results are stored as cluster ids
-        return clusters.add(_execute(get))
-
-    results = {}
-    mutations = []
-    info = {}
-
-    def run(choices):
+    def run(choices, expect=None):
         r = Run(choices, monitor=monitor)
-        out = execute(r.get)
-        # replay discipline: the prefix must have been honoured exactly
+        out = clusters.add(execute(r.get))
         if r.taken[: len(choices)] != list(choices):
             raise ScheduleDivergence("prefix %r replayed as %r" % (choices, r.taken[: len(choices)]))
+        if expect is not None and (r.points, r.taken) != expect:
+            raise ScheduleDivergence("real run of %r has scheduling points %r, the structural enumeration predicted %r" % (choices, r.points, expect[0]))
         results[tuple(r.taken)] = out
         mutations.extend(r.mutations)
         info.setdefault("heavy", r.n_heavy)
         info.setdefault("tasks", r.n_tasks)
         return r
 
-    # count linear extensions cheaply by a first full enumeration attempt bounded by cap
-    def dfs(prefix, bound, budget):
-        r = run(prefix)
-        budget[0] -= 1
-        for i in range(len(prefix), len(r.points)):
-            used = sum(1 for c in r.taken[:i] if c != 0)
-            for alt in range(1, r.points[i]):
-                if bound is not None and used + 1 > bound:
-                    continue
-                if budget[0] <= 0:
-                    budget[1] = True
-                    return
-                dfs(list(r.taken[:i]) + [alt], bound, budget)
-                if budget[1]:
-                    return
-
-    budget = [cap, False]
-    dfs([], None, budget)
-    exhaustive, bound = not budget[1], None
-    if budget[1]:
-        # too many linear extensions: fall back to iterative deviation bounding (0, 1, .. deviations)
-        results_full = dict(results)
-        results.clear()
-        mutations.clear()
-        budget = [max_runs or 100000, False]
-        dfs([], deviations, budget)
-        exhaustive, bound = False, deviations
-        if budget[1]:
-            bound = None
-        for k, v in results_full.items():
-            results.setdefault(k, v)
-    # determinism of replay: the default schedule twice
-    a = run([])
-    first = results[tuple(a.taken)]
-    b = Run(list(a.taken), monitor=False)
-    again = execute(b.get)
-    if again != first or b.taken != a.taken:
+    first = run([])
+    struct = first.struct
+    if dry_run(struct, []) != (first.points, first.taken):
+        raise ScheduleDivergence("the dry run of the default schedule does not reproduce the real one")
+    budget = max_runs if max_runs is not None else max(cap, 1)
+    total = count_linear_extensions(struct, cap)
+    level_sizes, skipped = [], None
+    if total <= cap:
+        stack = [[]]
+        while stack:
+            pre = stack.pop()
+            if pre:
+                run(pre, expect=dry_run(struct, pre))
+            stack.extend(_children(struct, pre))
+        exhaustive, bound = True, None
+        level_sizes = [len(results)]
+    else:
+        exhaustive, bound = False, 0
+        level = [[]]
+        level_sizes = [1]
+        used = 1
+        for b in range(1, deviations + 1):
+            nxt = [c for pre in level for c in _children(struct, pre)]
+            if used + len(nxt) > budget:
+                skipped = {"deviations": b, "schedules": len(nxt)}
+                break
+            for pre in nxt:
+                run(pre, expect=dry_run(struct, pre))
+            used += len(nxt)
+            level_sizes.append(len(nxt))
+            level, bound = nxt, b
+    # determinism of replay: the default schedule once more, without the monitor
+    b2 = Run(list(first.taken), monitor=False)
+    again = clusters.add(execute(b2.get))
+    if again != results[tuple(first.taken)] or b2.taken != first.taken:
         raise ScheduleDivergence("replaying the default schedule twice gave different observations")
-    return dict(runs=len(results), exhaustive=exhaustive, bound=bound, outcomes=[clusters.reps[i] for i in sorted(set(results.values()))], mutations=mutations,
+    return dict(runs=len(results), exhaustive=exhaustive, bound=bound, level_sizes=level_sizes, skipped_level=skipped,
+                linear_extensions=total if total <= cap else ">%d" % cap,
+                outcomes=[clusters.reps[i] for i in sorted(set(results.values()))], mutations=mutations,
                 heavy=info.get("heavy", 0), tasks=info.get("tasks", 0), schedules=sorted(results)[:3])
